@@ -204,6 +204,8 @@ func (v *PassScopeVariables) Add(s context.Scope, name string, val value.Value) 
 	}
 
 	v.ctx.BackendRequest.Header.Add(match[1], val.String())
+
+	v.ctx.BackendRequest.Assign(match[1])
 	return nil
 }
 
